@@ -3,12 +3,12 @@ CONSTANTS
   Slots = {"s1", "s2"}
   MaxCalls = 5
   CopyLists = TRUE
-  LocalClusters = FALSE
+  LocalClusters = TRUE
   RefreshParams = TRUE
   OwnScalers = TRUE
   CopyOnHandOut = TRUE
   KeyedMemo = TRUE
-  RejectKeeps = TRUE
+  RejectKeeps = FALSE
 INVARIANT FitRepeatable
 INVARIANT PredStable
 INVARIANT StoredDqIsModelDq
